@@ -277,6 +277,10 @@ func (f *frame) enterLoop(li *loopInfo, es []edge) (string, *State, error) {
 	}
 	// 2. havoc
 	cond, st := f.mergeEdges(es)
+	if f.top && f.fc != nil && f.fc.CutLoops && f.preTerm != "" {
+		// modular loop reasoning: beyond this point only the precondition, the invariants and unmodified state are known
+		cond = f.preTerm
+	}
 	eff := f.loopEff[li]
 	if f.loopPre == nil {
 		f.loopPre = map[*loopInfo]*State{}
@@ -346,6 +350,17 @@ func (f *frame) enterLoop(li *loopInfo, es []edge) (string, *State, error) {
 func (f *frame) backEdge(li *loopInfo, from *ssa.BasicBlock, cond string, st *State, predIdx int) error {
 	phiIn := func(p *ssa.Phi) string {
 		return f.termOf(p.Edges[predIdx])
+	}
+	// a deferred call pushed inside the loop must not be pending when the loop repeats (it would run once per iteration)
+	for b := range li.body {
+		for _, in := range b.Instrs {
+			if d, ok := in.(*ssa.Defer); ok && !f.t.isNoopCall(&d.Call) {
+				flag, pushed := st.defers[d]
+				if pushed && flag != "false" {
+					f.addObl("defer-in-loop", fmt.Sprintf("loop%d", li.ordinal), cond, not(flag), nil, d.Pos(), nil)
+				}
+			}
+		}
 	}
 	for _, a := range f.autoInvariants(li, st, phiIn) {
 		f.addObl("inv-pres", fmt.Sprintf("loop%d.auto", li.ordinal), cond, a, nil, li.header.Instrs[0].Pos(), nil)
